@@ -14,7 +14,9 @@ OPEN = ["schema_sound / schema_complete for all constructors against the Lean JS
 RULE = ("random (environment, runtype) with JSON documents (type-directed members, near-misses, random JSON): the REAL schema() and schemaWithContext()+exportDefinitions() "
         "JSON is compared verbatim (key order included) with the Lean model; oracle = python jsonschema Draft 2020-12 with the harness formats registered: meta-schema "
         "well-formedness, schema-valid ⇒ validate ∧ strict-validate (flat only for non-recursive types), strict-validate ∧ null-free ⇒ schema-valid, every $ref resolves, "
-        "printing throws exactly for types containing Date/bigint/Map/Set/typed arrays")
+        "printing throws exactly for types containing Date/bigint/Map/Set/typed arrays. The Lean JSON-Schema evaluator the C02 theorems speak about (Model/JsonSchema.lean) is tied "
+        "too: its verdicts on every document (flat schema; contextual schema + definitions of a fresh context) must equal python jsonschema's on the real schemas (schemas "
+        "using pattern / format excepted: those keywords are parameters of the evaluator)")
 
 def _pass(seed, count, label):
     def p(chk):
@@ -43,7 +45,7 @@ def engine_prog(chk, lines):
             d = {}
         datas.append(json.dumps(d))
     p = subprocess.run(["python3-vt", os.path.join(vcheck.VERIF, "tools", "schema_oracle.py")], input="\n".join(datas) + "\n", capture_output=True, text=True, timeout=3600)
-    tags = [l for l in p.stdout.split("\n") if l.strip()]
+    tags = [l.split("\t")[0] for l in p.stdout.split("\n") if l.strip()]
     tags += ["(oracle fail oracle-crash)"] * (len(lines) - len(tags))
     # requests without data (diagnostics, missing parser) are not judged
     return [r + "\t" + (t if d != "{}" else "(oracle ok)") for r, t, d in zip(replies, tags, datas)]
